@@ -18,6 +18,8 @@ func main() {
 	tier := flag.String("tier", "quick", "quick|thorough")
 	repo := flag.String("repo", "/repo", "repository root")
 	dir := flag.String("dir", "", "verif dir (default: parent of the binary's dir)")
+	out := flag.String("out", "", "evidence output dir (default: <verif dir>/evidence)")
+	noSelf := flag.Bool("noselftest", false, "thorough tier without the reference-defect self-test")
 	flag.Parse()
 	if t := os.Getenv("VERIF_TIER"); t != "" && *tier == "" {
 		*tier = t
@@ -35,6 +37,7 @@ func main() {
 		os.Exit(2)
 	}
 	rep := core.NewReport(ck.ID, *tier)
+	rep.OutDir = *out
 	p, err := core.Load(core.LoadOpts{Repo: *repo, Tags: "dae_stub_ebpf", Variant: "stub"})
 	if err != nil {
 		rep.Check("load", "packages", "-", false, err.Error())
@@ -52,5 +55,26 @@ func main() {
 		}()
 		ck.Run(ctx)
 	}()
+	if *tier == "thorough" && !*noSelf {
+		res, fails := runSelfTest(ck.ID, *repo, *dir)
+		rep.Extra["selftest"] = res
+		caught, applied := 0, 0
+		for _, r := range res {
+			if r.Outcome != "patch-does-not-apply" {
+				applied++
+			}
+			if r.Outcome == "caught" {
+				caught++
+			}
+			fmt.Printf("  selftest %-14s expect=%-6s outcome=%-8s %s\n", r.ID, r.Expect, r.Outcome, r.Report)
+		}
+		rep.Extra["selftest_summary"] = fmt.Sprintf("%d reference defects for this property, %d applied to a scratch copy of the working tree, %d reported", len(res), applied, caught)
+		for _, f := range fails {
+			rep.Check("SELFTEST", f[:strings.Index(f, " ")], "-", false, f+" — the checker has lost the ability to see a defect it is recorded to see; its pass verdict is not to be trusted")
+		}
+		if len(fails) == 0 {
+			rep.Check("SELFTEST", "reference-defects", "-", true, fmt.Sprint(rep.Extra["selftest_summary"]))
+		}
+	}
 	os.Exit(rep.Finish(*dir, ck.Explain))
 }
